@@ -821,6 +821,12 @@ impl CanonicalizeContext {
 					// people tend to set them in a non-italic font and software makes that 'mtext'
 					CanonicalizeContext::make_roman_numeral(mathml);
 				}
+				if (first_char == '-' || first_char == '\u{2212}') && text[first_char.len_utf8()..].trim().is_empty() {
+					// just a minus sign: it is an operator, not a negative number (splitting it would leave an empty mn)
+					set_mathml_name(mathml, "mo");
+					mathml.set_text("-");
+					return Some(mathml);
+				}
 				if first_char == '-' || first_char == '\u{2212}' {
 					let doc = mathml.document();
 					let mo = create_mathml_element(&doc, "mo");
